@@ -12,6 +12,9 @@ type Explorer struct {
 	Budget   int64
 	MaxExecs int64
 	Deadline time.Time
+	// OnlyPerm restricts branching to map-order choice points (the schedule
+	// stays the default one).
+	OnlyPerm bool
 
 	// Exec runs one execution with the given scheduler (it calls s.Run) and
 	// returns whatever the check needs.
@@ -65,6 +68,9 @@ func (e *Explorer) explore(prefix []int) {
 	choices := o.Choices()
 	for i := len(prefix); i < len(o.Points); i++ {
 		p := o.Points[i]
+		if e.OnlyPerm && p.Kind != PPerm {
+			continue
+		}
 		for alt := 1; alt < p.N; alt++ {
 			if cost+p.Cost(alt) > e.Bound {
 				continue
